@@ -3,6 +3,7 @@ SPECIFICATION Spec
 CONSTANTS
   TxHolderCheck = TRUE
   UnsetFix = TRUE
+  CatchUpKeeps = TRUE
   GrantPins = TRUE
   IdemCheck = TRUE
   WaitPos = FALSE
